@@ -1,4 +1,4 @@
 From Coq Require Extraction.
 From Coq Require Import ExtrOcamlBasic.
 From RM Require Import C01.Driver C01.QModel C01.LModel C01.SModel C01.PModel.
-Extraction "c01_model.ml" run_case o_fields o_ledger err_code sizes run_queries run_lookups run_stacks run_prints.
+Extraction "c01_model.ml" run_case o_fields o_ledger err_code sizes run_queries run_lookups run_stacks run_prints table_ledger sizes2.
